@@ -246,6 +246,11 @@ bool cjet_is_word_sequence_valid_auto_alligned(struct cjet_utf8_checker *c, cons
 		ret = cjet_is_byte_sequence_valid(c, sequence, byte_length, is_complete);
 		break;
 	}
+	if (!ret) {
+		/* A part validated after the rejected one may have left a character open. */
+		cjet_init_checker(c);
+		return false;
+	}
 	if (is_complete) {
 		if (c->start_byte != UC_FINISH) {
 			cjet_init_checker(c);
